@@ -54,6 +54,8 @@ def domain_iter(con, tier):
         return None
     size = dom.get("_size", {}).get(tier, dom.get("_size", {}).get("quick", 4))
     env = dict(DOMAIN_ENV, N=size)
+    for name, src in C.PYSPECS.items():
+        exec(src, env)
     names = [k for k in dom if not k.startswith("_")]
     axes = [list(eval(dom[k], env)) for k in names]
     return names, axes
@@ -103,7 +105,11 @@ def spec_env(module=None):
     env["re_group"] = lambda p, s, g, kind="match": _m(p, s, kind).group(g)
     env["is_digits"] = lambda s: _re.fullmatch(r"[0-9]+", s) is not None
     env["nonnull"] = lambda x: x
+    for name, src in C.PYSPECS.items():
+        exec(src, env)
     for name, sp in C.SPECS.items():
+        if sp["body"] is None:
+            continue
         params = ", ".join(p for p, _ in sp["params"])
         tree = ast.parse("lambda %s: %s" % (params, sp["body"]), mode="eval")
         tree = ast.fix_missing_locations(_Rewrite().visit(tree))
